@@ -114,6 +114,16 @@ def _make_kwonly(reason):
     return KwOnlyExc(reason=reason)
 
 
+class ErrorList(Exception):
+    """A collection-like exception (the errors gathered by a batch job): len() and truth value follow its entries."""
+
+    def __init__(self, *errors):
+        super().__init__(*errors)
+
+    def __len__(self):
+        return len(self.args)
+
+
 class StatusError(Exception):
     """Validating constructor: a non-numeric argument raises ValueError (not TypeError)."""
 
@@ -164,7 +174,7 @@ EXC_TABLE = {
     'KwOnlyExc': KwOnlyExc, 'AssertionError': AssertionError, 'KeyboardInterrupt': KeyboardInterrupt, 'ZeroDivisionError': ZeroDivisionError,
     'UnicodeDecodeError': UnicodeDecodeError, 'FileNotFoundError': FileNotFoundError, 'RuntimeError': RuntimeError, 'StopIteration': StopIteration,
     'Reject': Reject, 'LookupError': LookupError, 'TimeoutError': TimeoutError, 'ConnectionResetError': ConnectionResetError,
-    'StatusError': StatusError, 'CodeError': CodeError, 'RespError': _make_resp_error, 'TwoArgInit': TwoArgInit,
+    'StatusError': StatusError, 'CodeError': CodeError, 'RespError': _make_resp_error, 'TwoArgInit': TwoArgInit, 'ErrorList': ErrorList,
 }
 
 
